@@ -62,7 +62,9 @@ econf_errString (const econf_err error)
 {
   if (error >= sizeof(messages)/sizeof(messages[0]))
     {
-      static char buffer[1024]; /* should always be big enough, else truncate */
+      /* one buffer per thread: the returned string must stay valid for the
+	 caller while other threads ask for their own error strings */
+      static __thread char buffer[1024]; /* should always be big enough, else truncate */
       const char *unknown = "Unknown libeconf error %i";
 
       snprintf (buffer, sizeof (buffer), unknown, error);
